@@ -40,6 +40,8 @@ def pair(v):
 
 
 def run(ctx):
+    from xfabsa import numeric as _N
+    _N.alias_rule(ctx, 'C11', ['xfab/detector.py'])
     ctx.rule("valid", "exactly the eight signed permutation matrices are accepted by all four functions; the other 73 raise ValueError")
     ctx.rule("image-inverse", "forward then inverse is the identity index map (trans_orientation, image_flipping)")
     ctx.rule("pixel-map", "xy_to_detyz(x, y) == index at which trans_orientation(forward) stores raw[x, y] (detz_size = extent x, dety_size = extent y)")
